@@ -124,6 +124,14 @@ class Engine:
                 cur = (cur[0], cur[1] + (('f', e['i'], e.get('name')),))
             elif k == 'downcast':
                 cur = (cur[0], cur[1] + (('d', e['name']),))
+            elif k == 'index':
+                iv = self.load(st, (('L', fr.fid, e['local']), ()))
+                if is_int_const(iv):
+                    cur = (cur[0], cur[1] + (('f', iv[1], None),))
+                else:
+                    cur = (cur[0], cur[1] + (('x', k),))
+            elif k == 'constindex' and not e.get('from_end'):
+                cur = (cur[0], cur[1] + (('f', e['offset'], None),))
             else:
                 cur = (cur[0], cur[1] + (('x', k),))
         return cur
